@@ -181,9 +181,162 @@ def coq_input(c):
     return "(%d%%nat, %d%%nat, [%s], [%s])" % (n, entry, "; ".join(_nl(l) for l in edges), "; ".join(_nl(l) for l in catch))
 
 
+# ---- stream 2: histories of graph edits with intermediate compute_rpo calls ---------------------------------------------
+def final_graph(case):
+    """The graph the edit history leaves behind, by the documented meaning of the Graph API (independent of androguard):
+    surviving nodes in insertion order, relabelled 0..m-1, edge lists in insertion order without duplicates."""
+    n, entry, edges, catch, ops = case
+    nodes = list(range(n))
+    e = {i: list(edges[i]) for i in range(n)}
+    c = {i: list(catch[i]) for i in range(n)}
+    for op in ops:
+        if op[0] == "rm":
+            x = op[1]
+            nodes.remove(x)
+            for d in (e, c):
+                d.pop(x, None)
+                for k in d:
+                    if x in d[k]:
+                        d[k].remove(x)
+        elif op[0] == "node":
+            x = op[1]
+            nodes.append(x)
+            e[x], c[x] = [], []
+        elif op[0] == "edge":
+            if op[2] not in e[op[1]]:
+                e[op[1]].append(op[2])
+        elif op[0] == "cedge":
+            if op[2] not in c[op[1]]:
+                c[op[1]].append(op[2])
+    idx = {x: i for i, x in enumerate(nodes)}
+    return (len(nodes), idx[entry], [[idx[y] for y in e[x]] for x in nodes], [[idx[y] for y in c[x]] for x in nodes]), nodes
+
+
+def impl_history(case):
+    n, entry, edges, catch, ops = case
+    g, nodes = build((n, entry, edges, catch))
+    from androguard.decompiler.node import Node
+
+    class N(Node):
+        catch_type = None
+
+        def set_catch_type(self, t):
+            self.catch_type = t
+    nodes = dict(enumerate(nodes))
+    for op in ops:
+        if op[0] == "rpo":
+            g.compute_rpo()
+        elif op[0] == "rm":
+            g.remove_node(nodes[op[1]])
+        elif op[0] == "node":
+            nodes[op[1]] = N("n%d" % op[1])
+            g.add_node(nodes[op[1]])
+        elif op[0] == "edge":
+            g.add_edge(nodes[op[1]], nodes[op[2]])
+        elif op[0] == "cedge":
+            g.add_catch_edge(nodes[op[1]], nodes[op[2]])
+    g.compute_rpo()
+    idx = {x: i for i, x in enumerate(g.nodes)}
+    return [[x.num for x in g.nodes], [idx[x] for x in g.rpo]]
+
+
+def gen_history(rng, tier, ctx):
+    cases = []
+    # r->a->b->d, r->c->d, a->c ; number, remove b, number again
+    cases.append((5, 0, [[1, 3], [2, 3], [4], [4], []], [[], [], [], [], []], [("rpo",), ("rm", 2), ("rpo",)]))
+    total = 1500 if tier == "thorough" else 250
+    while len(cases) < total:
+        n = rng.choice((3, 4, 5, 6, 8, 12, 20))
+        edges, catch = _rand_graph(rng, n, rng.choice(("tree+", "dag", "cfg")))
+        cur = (n, 0, edges, catch, [])
+        ops = []
+        nxt = n
+        for _ in range(rng.randint(1, 8)):
+            (fg, alive) = final_graph((n, 0, edges, catch, ops))
+            r = rng.random()
+            if r < 0.35:
+                op = ("rpo",)
+            elif r < 0.65 and len(alive) > 2:
+                x = rng.choice([a for a in alive if a != 0])
+                op = ("rm", x)
+            elif r < 0.8:
+                op = (rng.choice(("edge", "edge", "cedge")), rng.choice(alive), rng.choice(alive))
+            else:
+                ops.append(("node", nxt))
+                op = ("edge", rng.choice(alive), nxt)
+                nxt += 1
+            trial = ops + [op]
+            (m, ent, e2, c2), _ = final_graph((n, 0, edges, catch, trial))
+            sucs = [e2[i] + c2[i] for i in range(m)]
+            if len(_reach(sucs, ent)) == m:          # keep the graph rooted, so that every node is renumbered
+                ops = trial
+            elif op[0] == "edge" and ops and ops[-1][0] == "node":
+                ops.pop()
+        cases.append((n, 0, edges, catch, ops))
+    return cases
+
+
+def oracle_history(case, res):
+    return oracle(final_graph(case)[0], res)
+
+
+def stats_history(cases, results):
+    d = {"histories": len(cases), "ops": 0, "rpo_between": 0, "removals": 0, "removal_after_rpo": 0}
+    for c in cases:
+        ops = c[4]
+        d["ops"] += len(ops)
+        d["rpo_between"] += sum(1 for o in ops if o[0] == "rpo")
+        d["removals"] += sum(1 for o in ops if o[0] == "rm")
+        seen = False
+        for o in ops:
+            if o[0] == "rpo":
+                seen = True
+            if o[0] == "rm" and seen:
+                d["removal_after_rpo"] += 1
+                break
+    return d
+
+
+# ---- stream 3: large graphs (beyond the sizes the model is evaluated on; decided by the numbering rule itself) ----------
+def gen_large(rng, tier, ctx):
+    cases = []
+    for n in ((1249, 1250, 1251, 1300, 2500) if tier != "thorough" else (900, 1249, 1250, 1251, 1300, 2000, 2500, 4000, 5001)):
+        edges = [[] for _ in range(n)]
+        catch = [[] for _ in range(n)]
+        for v in range(1, n):
+            edges[rng.randrange(v)].append(v)
+        for _ in range(n // 3):                     # forward and cross edges (acyclic: every edge must increase)
+            a, b = sorted((rng.randrange(n), rng.randrange(n)))
+            if a != b and b not in edges[a]:
+                (catch if rng.random() < 0.2 and b not in catch[a] else edges)[a].append(b)
+        for l in edges + catch:
+            rng.shuffle(l)
+        cases.append((n, 0, [_dedup(l) for l in edges], [_dedup(l) for l in catch]))
+    # if-without-else padded with a long chain of siblings:  0->1->2, 0->2, 0->3.. (all children of 0)
+    n = 1400
+    edges = [[] for _ in range(n)]
+    edges[0] = [1, 2] + list(range(3, n))
+    edges[1] = [2]
+    cases.append((n, 0, edges, [[] for _ in range(n)]))
+    return cases
+
+
+def oracle_large(case, res):
+    if isinstance(res, Err) and res.name == "RecursionError":
+        return None                  # Python's recursion limit is outside the model and the property
+    return oracle(case, res)
+
+
 STREAMS = [{
     "name": "graphs", "gen": gen, "impl": impl, "coq_header": COQ_HEADER,
     "coq_type": "nat * nat * list (list nat) * list (list nat)", "coq_input": coq_input,
     "coq_obs": "obs_rpo", "model_vo": "Dad/RpoModel.vo",
     "pinned": False, "oracle": oracle, "stats": stats, "shard": 120,
+}, {
+    "name": "histories", "gen": gen_history, "impl": impl_history, "coq_header": COQ_HEADER,
+    "coq_type": "nat * nat * list (list nat) * list (list nat)", "coq_input": lambda c: coq_input(final_graph(c)[0]),
+    "coq_obs": "obs_rpo", "model_vo": "Dad/RpoModel.vo",
+    "pinned": False, "oracle": oracle_history, "stats": stats_history, "shard": 120,
+}, {
+    "name": "large", "gen": gen_large, "impl": impl, "oracle": oracle_large, "stats": stats, "case_timeout": 300,
 }]
